@@ -272,6 +272,22 @@ def execute(scenario):
             if len(col) != len(want_col) or any(abs(a - b) > 1e-9 * max(1.0, abs(b)) for a, b in zip(col, want_col)):
                 violate("aggregations", "TrackRecord.net_liquidation_value() {} != recorded pre-trade NLVs {}".format(col[:5], want_col[:5]), kind="nlv_series")
                 break
+            try:
+                wt = tr.weights_target()
+            except Exception as e:
+                violate("unexpected_exception", "TrackRecord.weights_target() raised {!r}".format(e), exc=type(e).__name__, where="track_record")
+                break
+            if len(wt) != len(entries):
+                violate("aggregations", "TrackRecord.weights_target() has {} rows for {} entries".format(len(wt), len(entries)), kind="weights_target_rows")
+                break
+            for j, (_, reb) in enumerate(entries):
+                row = {getattr(c, "symbol", str(c)): float(v) for c, v in wt.iloc[j].items() if v == v and v != 0}
+                want_row = {s_: v for s_, v in reb["alloc"].items()}
+                if set(row) != set(want_row) or any(abs(row[s_] - want_row[s_]) > 1e-6 * max(1.0, abs(want_row[s_])) for s_ in row):
+                    violate("aggregations", "TrackRecord.weights_target() row {} = {} but the entry's allocation is {}".format(j, row, want_row), kind="weights_target")
+                    break
+            if violations:
+                break
             cum_fee = cum_int = cum_spread = 0.0
             for j, (_, reb) in enumerate(entries):
                 cum_fee += sum(t["comm"] for t in reb["trades"])
